@@ -208,7 +208,10 @@ def nontrivial(case):
     return any(keep_expected(r["row"])[1] or r["row"]["force_from"] != "none" or r["row"]["discard"] != "none" for r in case["runs"])
 
 
-shrink_candidates = rc.shrink_candidates
+def shrink_candidates(case):
+    if case.get("kind") == "history":
+        for c in rc.shrink_candidates(case):
+            yield c
 
 MANIFEST = dict(
     design_ref="6/C17",
